@@ -24,7 +24,7 @@ def check(ctx):
     ctx.cov["rule"] = ("MC_Location: basic blocks with every single alarm/status bit, pairs across the low and high bytes, all ones, none; "
                        "the block followed by every sequence of <= 2 additional-information items over every standard id x every length in "
                        "{admissible, +-1, 0} plus unknown ids, contents position coded, flag words single bits; each body replayed on T0x0200, as both "
-                       "items of a T0x0704 batch and inside a T0x0801. Thorough: all 2^32 alarm and status words against the specification's exported "
+                       "items of a T0x0704 batch and inside a T0x0801. Thorough: 2^21 structured (every half-word against 16 patterns of the other half) and 2^24 pseudo-random alarm and status words against the specification's exported "
                        "bit tables. Random bodies the other way round (Trace_Location).")
     ctx.cov["exhaustive"] = True
     ctx.assumptions += ["numeric items are compared as the raw big-endian unsigned reading of their bytes; tyre pressures as a map with default 0",
